@@ -48,3 +48,12 @@ CLAIMS["C08"] = {
     "note": "Stated floating-point tolerances (1e-9 x scale) for sums; exact equality for order statistics; both neighbours accepted at exact .5 ties of k and of count. Percentile 0 and NaN bucket items are outside the domain.",
     "technique": "property-based testing (rapid): independent reference statistics + permutation/batching metamorphic relation",
 }
+
+CLAIMS["C09"] = {
+    "text": "A rapid state machine drives one real MetricAggregator with an injected clock through histories of datapoints, clock advances chosen around the expiry boundaries "
+            "(interval-1ns, =, +1ns) and flushes, for 8 series (two per type) with an expiry drawn independently per type from {-1s, 0, 1s, 10s, 1m}. After every flush the reported set of series "
+            "and their values (idle counters 0/0, empty sets, timers count 0 without percentiles, gauges' last value) are compared with a history model: reported iff live, removed after a flush at t iff "
+            "interval != 0 and t - T > interval, never reported again without new data. Exploration with shrinking histories.",
+    "note": "Needs the verif-tagged VerifSetNow hook to own the aggregator's clock. Datapoint timestamps are the injected clock's reading at receipt.",
+    "technique": "stateful property-based testing (rapid state machine) against a history model",
+}
